@@ -82,6 +82,16 @@ func EncodeTV(v interface{}) TV {
 		return "b:false"
 	case json.Number:
 		return TV("j:" + string(x))
+	case []string:
+		b, _ := json.Marshal(x)
+		return TV("l:" + string(b))
+	case []interface{}:
+		parts := make([]string, len(x))
+		for i, e := range x {
+			parts[i] = string(EncodeTV(e))
+		}
+		b, _ := json.Marshal(parts)
+		return TV("L:" + string(b))
 	default:
 		return TV(fmt.Sprintf("x:%T:%v", v, v))
 	}
@@ -137,6 +147,19 @@ func (t TV) Str() (string, bool) {
 	}
 	return "", false
 }
+// List returns the elements of a list value: "l:" (strings) or "L:" (typed values).
+func (t TV) List() ([]string, bool) {
+	switch t.Kind() {
+	case 'l', 'L':
+		var out []string
+		if err := json.Unmarshal([]byte(t.Raw()), &out); err != nil {
+			return nil, false
+		}
+		return out, true
+	}
+	return nil, false
+}
+
 func (t TV) Bool() (bool, bool) {
 	if t.Kind() == 'b' {
 		return t.Raw() == "true", true
